@@ -61,7 +61,7 @@ func main() {
 	for i := 0; i < nConc; i++ {
 		jobs = append(jobs, job{"conc", i, raceBin != "" && i%2 == 1})
 	}
-	nCrash := c.Pick(2, 60)
+	nCrash := c.Pick(2, 40)
 	for i := 0; i < nCrash; i++ {
 		jobs = append(jobs, job{"crash", i, false})
 	}
